@@ -196,10 +196,15 @@ func (l *LRUCache) VerifSet(key uint64, n *VerifNode) bool { return l.set(key, n
 func (l *LRUCache) VerifGet(key uint64) (*VerifNode, bool) { return l.get(key) }
 func (l *LRUCache) VerifList() *list.List                  { return l.list }
 func (rs *RelationService) VerifStore() *VerifStore        { return rs.fs }
-func (rs *RelationService) VerifWalFile() any              { return rs.wal.reader }
-func (f *fileStore) VerifFlush() error                     { return f.flushPages() }
-func (f *fileStore) VerifAutoFlush() bool                  { return f.autoFlushCache }
-func (f *fileStore) VerifFileName() string                 { return f.file.Name() }
+func (rs *RelationService) VerifWalFile() any {
+	if f, ok := rs.wal.reader.(*verifWalFile); ok {
+		return f.readWriteSyncCloser
+	}
+	return rs.wal.reader
+}
+func (f *fileStore) VerifFlush() error     { return f.flushPages() }
+func (f *fileStore) VerifAutoFlush() bool  { return f.autoFlushCache }
+func (f *fileStore) VerifFileName() string { return f.file.Name() }
 func VerifEncodeNode(n *VerifNode) ([]byte, error) {
 	b, err := n.encode()
 	if err != nil {
